@@ -179,7 +179,9 @@ def hash_order_dependence(rel: str) -> List[Dict[str, Any]]:
                 par = parents.get(id(cur))
                 if par is None:
                     break
-                if isinstance(par, ast.Call) and isinstance(par.func, ast.Name) and par.func.id == "len":
+                if isinstance(par, ast.Call) and isinstance(par.func, ast.Name) and par.func.id in ("len", "sorted", "min", "max", "sum"):
+                    # len / min / max / sum do not depend on iteration order; sorted() restores a deterministic order (the
+                    # elements must then be orderable values - subsystems are not, sorting them raises)
                     ok = True
                     break
                 if isinstance(par, ast.Call) and isinstance(par.func, ast.Name) and par.func.id in ("list", "tuple") and par.args and par.args[0] is cur:
